@@ -487,8 +487,9 @@ def isbuiltintype(
 @compat.cache
 def isstdlibtype(obj: type) -> compat.TypeIs[type[STDLibtypeT]]:
     # An alias is what it stands for (`typing.get_args` of the alias object itself is empty,
-    #   which would make `all(...)` below vacuously true for any union-valued alias).
-    if istypealiastype(obj):
+    #   which would make `all(...)` below vacuously true for any union-valued alias). A
+    #   string-valued alias is a reference that is not resolved yet, not a `str`.
+    if istypealiastype(obj) and not isinstance(obj.__value__, str):
         return isstdlibtype(obj.__value__)
     if isoptionaltype(obj):
         nargs = tp.get_args(obj)[:-1]
